@@ -214,11 +214,7 @@ func ruleP08IoVerbatim(p *Prog, r *Report) {
 			}
 			nSinks++
 			d := bytesOrStringOf(c.Common().Args[dataArg])
-			if fv, isFV := d.(*ssa.FreeVar); isFV {
-				if b := freeVarBinding(fv); b != nil {
-					d = bytesOrStringOf(b)
-				}
-			}
+			d = bytesOrStringOf(deref(d))
 			r.check(d == ssa.Value(contents), rule, fmt.Sprintf("WriteToFile:%s#%d", callee.Name(), nSinks), p.instrPos(c), "writes exactly the contents it was given", "the bytes written are not exactly the contents argument (something is added, removed or normalised on the way out)")
 		})
 	}
@@ -928,4 +924,498 @@ func ruleP10CharUnits(p *Prog, r *Report) {
 	if n < 15 {
 		r.undecided(rule, "floor", p.pos(parse.Pos()), "only %d error constructions found in parse", n)
 	}
+}
+
+// P13-reduce — narrowing a record to its matching entries changes the entry list and nothing
+// else, and every entry is put to the test: (a) the record handed back is the record received
+// (or a fresh one that is given the received record's date, should-total and summary);
+// (b) inside the entry loop, the only condition on keeping an entry is the match test itself —
+// no shortcut skips an entry before it is tested.
+func ruleP13Reduce(p *Prog, r *Report) {
+	const rule = "P13-reduce"
+	for _, name := range []string{"reduceRecordToMatchingTags", "reduceRecordToMatchingEntryTypes"} {
+		f := p.fn("klog/service", name)
+		if !r.anchorFn(rule, f, "service."+name) {
+			continue
+		}
+		rec := f.Params[1]
+		for i, ret := range returnsOf(f) {
+			v := strip(ret.Results[0])
+			if isNilConst(v) {
+				continue
+			}
+			key := fmt.Sprintf("%s:return#%d", name, i)
+			if v == ssa.Value(rec) {
+				r.ok(rule, key, p.instrPos(ret), "hands back the record it received")
+				continue
+			}
+			// a fresh record: date, should-total and summary must be carried over
+			c, _ := callOf(v)
+			okFresh := c != nil && calleeName(c) == "klog.NewRecord"
+			if okFresh {
+				if n, rv, _, _ := methodCall(c.Common().Args[0]); n != "Date" || strip(rv) != ssa.Value(rec) {
+					okFresh = false
+				}
+				need := map[string]string{"SetShouldTotal": "ShouldTotal", "SetSummary": "Summary"}
+				for _, ref := range *c.Value().Referrers() {
+					if ci, ok := ref.(ssa.CallInstruction); ok {
+						n, _, args, _ := methodCallOf(ci)
+						if getter, isNeeded := need[n]; isNeeded && len(args) == 1 && ci.Block().Dominates(ret.Block()) {
+							if gn, grv, _, _ := methodCall(args[0]); gn == getter && strip(grv) == ssa.Value(rec) {
+								delete(need, n)
+							}
+						}
+					}
+				}
+				if len(need) > 0 {
+					okFresh = false
+				}
+			}
+			r.check(okFresh, rule, key, p.instrPos(ret), "hands back a fresh record carrying the date, should-total and summary of the one received", "the record handed back is neither the one received nor a copy that keeps its date, should-total and summary: filtering entries alters the rest of the record")
+		}
+		// (b) the keep decision
+		n := 0
+		eachInstr(f, func(in ssa.Instruction) {
+			c, ok := in.(*ssa.Call)
+			if !ok {
+				return
+			}
+			b, isB := c.Call.Value.(*ssa.Builtin)
+			if !isB || b.Name() != "append" || !isSliceOf(c.Type(), "Entry") {
+				return
+			}
+			n++
+			var inLoop []Guard
+			for _, g := range guardsOf(c.Block()) {
+				if isLoopGuard(g) {
+					break
+				}
+				inLoop = append(inLoop, g)
+			}
+			okg := len(inLoop) == 1
+			if okg {
+				cc, _ := callOf(strip(inLoop[0].Cond))
+				callee := (*ssa.Function)(nil)
+				if cc != nil {
+					callee = staticCallee(cc)
+				}
+				okg = callee != nil && (sameFn(callee, p.fn("klog/service", "isSubsetOf")) || fnBase(callee) == "Unbox") && inLoop[0].Pol
+			}
+			detail := ""
+			if !okg {
+				for _, g := range inLoop {
+					detail += fmt.Sprintf(" [%v %s]", g.Pol, g.Cond.String())
+				}
+			}
+			r.check(okg, rule, name+":keep", p.instrPos(c), "an entry is kept iff the match test holds; every entry is tested", "keeping an entry depends on more than the match test (entries are skipped before they are tested):"+detail)
+		})
+		if n != 1 {
+			r.undecided(rule, name+":keep", p.pos(f.Pos()), "expected one append of a matching entry, found %d", n)
+		}
+	}
+}
+
+// P14-sortkey — rows of one tag name stay together (the value rows directly under the row of
+// their tag): the sort key is name + "=" + value, and '=' cannot occur in a tag name, so all keys
+// of one name form one contiguous interval in the order.
+func ruleP14SortKey(p *Prog, r *Report) {
+	const rule = "P14-sortkey"
+	put := p.method("klog/service", "totalByTag", "put")
+	if !r.anchorFn(rule, put, "service.totalByTag.put") {
+		return
+	}
+	n := 0
+	eachInstr(put, func(in ssa.Instruction) {
+		st, ok := in.(*ssa.Store)
+		if !ok {
+			return
+		}
+		fa, isFA := st.Addr.(*ssa.FieldAddr)
+		if !isFA || fieldName(fa) != "keyForSort" {
+			return
+		}
+		n++
+		var leaves []ssa.Value
+		catLeaves(st.Val, &leaves, 0)
+		okk := len(leaves) == 3
+		if okk {
+			n0, r0, _, _ := methodCall(leaves[0])
+			sep, isS := constString(leaves[1])
+			n2, r2, _, _ := methodCall(leaves[2])
+			okk = n0 == "Name" && n2 == "Value" && isS && sep == "=" && r0 != nil && r2 != nil && sameValue(r0, r2) && strip(r0) == ssa.Value(put.Params[1])
+		}
+		r.check(okk, rule, "key", p.instrPos(st), "sort key = Name() + \"=\" + Value() of the tag", "the sort key of a tag row is not name + \"=\" + value: rows of different tag names can interleave, and the values table attributes a value row to the wrong tag")
+	})
+	if n != 1 {
+		r.undecided(rule, "key", p.pos(put.Pos()), "expected one assignment of keyForSort, found %d", n)
+	}
+	// and the list is sorted by that key, ascending
+	sl := p.method("klog/service", "totalByTag", "toSortedList")
+	if r.anchorFn(rule, sl, "service.totalByTag.toSortedList") {
+		okc := false
+		for _, a := range sl.AnonFuncs {
+			for _, ret := range returnsOf(a) {
+				if bo, ok := strip(ret.Results[0]).(*ssa.BinOp); ok && bo.Op == token.LSS {
+					_, f1 := fieldLoad(bo.X)
+					_, f2 := fieldLoad(bo.Y)
+					if f1 == "keyForSort" && f2 == "keyForSort" {
+						okc = true
+					}
+				}
+			}
+		}
+		r.check(okc, rule, "less", p.pos(sl.Pos()), "rows are ordered by that key", "the tag rows are not ordered by keyForSort")
+	}
+}
+
+// P16-date-strict — a date text denotes an existing calendar day or is rejected: (a) package klog
+// never builds dates through the NORMALISING constructors of package time (time.Date rolls
+// February 30th over into March; Time.AddDate likewise), (b) civil2Date, through which every klog
+// date is made, rejects a civil.Date that is not valid, (c) NewDateFromString hands civil2Date the
+// civil.Date that civil.ParseDate produced (strict parsing) for the three captured groups.
+func ruleP16DateStrict(p *Prog, r *Report) {
+	const rule = "P16-date-strict"
+	n := 0
+	for _, f := range p.srcFns {
+		if pkgPathOfFn(f) != modPath+"/klog" {
+			continue
+		}
+		eachInstr(f, func(in ssa.Instruction) {
+			c, ok := in.(ssa.CallInstruction)
+			if !ok {
+				return
+			}
+			callee := staticCallee(c)
+			if callee == nil {
+				return
+			}
+			switch callee.String() {
+			case "time.Date", "(time.Time).AddDate":
+				n++
+				r.bad(rule, fmt.Sprintf("%s:%s", fnName(f), callee.Name()), p.instrPos(c), "package klog builds a date with the normalising %s: a day the month does not have silently becomes a day of the next month instead of being rejected", callee.String())
+			}
+		})
+	}
+	if n == 0 {
+		r.ok(rule, "no-normalising-constructor", "-", "package klog calls neither time.Date nor Time.AddDate")
+	}
+	c2d := p.fn("klog", "civil2Date")
+	if r.anchorFn(rule, c2d, "klog.civil2Date") {
+		okv := false
+		for _, ret := range returnsOf(c2d) {
+			if !isNilConst(ret.Results[0]) {
+				continue
+			}
+			for _, g := range guardsOf(ret.Block()) {
+				if nm, rv, _, _ := methodCall(g.Cond); nm == "IsValid" && !g.Pol {
+					if strip(rv) == ssa.Value(c2d.Params[0]) || derefIsParam(rv, c2d.Params[0]) {
+						okv = true
+					}
+				}
+			}
+		}
+		r.check(okv, rule, "civil2Date:valid", p.pos(c2d.Pos()), "an invalid civil date is rejected", "civil2Date does not reject a civil.Date that is not valid")
+	}
+	nd := p.fn("klog", "NewDateFromString")
+	if r.anchorFn(rule, nd, "klog.NewDateFromString") && c2d != nil {
+		cs := callsTo(nd, c2d)
+		okp := len(cs) >= 1
+		for _, c := range cs {
+			a := derefFlow(c.Common().Args[0])
+			if u, isU := strip(a).(*ssa.UnOp); isU && u.Op == token.MUL {
+				if al, isA := u.X.(*ssa.Alloc); isA && len(storesTo(al)) == 0 {
+					continue // a civil.Date composite literal: validated by civil2Date's IsValid test
+				}
+			}
+			src, idx := callOf(a)
+			if src == nil || idx != 0 || staticCallee(src) == nil || staticCallee(src).String() != "cloud.google.com/go/civil.ParseDate" {
+				okp = false
+			}
+		}
+		r.check(okp, rule, "NewDateFromString:strict-parse", p.pos(nd.Pos()), "the date is the result of civil.ParseDate (strict) or a literal that civil2Date validates", "NewDateFromString does not obtain its date from civil.ParseDate: days a month does not have are no longer guaranteed to be rejected")
+	}
+}
+
+func derefIsParam(v ssa.Value, prm *ssa.Parameter) bool {
+	v = strip(v)
+	if u, ok := v.(*ssa.UnOp); ok && u.Op == token.MUL {
+		if a, isA := u.X.(*ssa.Alloc); isA {
+			for _, s := range storesTo(a) {
+				if strip(s.val) == ssa.Value(prm) {
+					return true
+				}
+			}
+		}
+	}
+	if a, isA := v.(*ssa.Alloc); isA {
+		for _, s := range storesTo(a) {
+			if strip(s.val) == ssa.Value(prm) {
+				return true
+			}
+		}
+	}
+	return false
+}
+
+// P16-duration-parts — a duration text needs an hour part or a minute part: the text is
+// rejected when both digit groups are empty (the pattern alone also matches "", "-" and "+").
+func ruleP16DurationParts(p *Prog, r *Report) {
+	const rule = "P16-duration-parts"
+	f := p.fn("klog", "NewDurationFromString")
+	if !r.anchorFn(rule, f, "klog.NewDurationFromString") {
+		return
+	}
+	okd := false
+	for _, ret := range returnsOf(f) {
+		if !isNilConst(ret.Results[0]) {
+			continue
+		}
+		empty := map[int]bool{}
+		for _, g := range guardsOf(ret.Block()) {
+			bo, ok := g.Cond.(*ssa.BinOp)
+			if !ok {
+				continue
+			}
+			s, isS := constString(bo.Y)
+			if !isS || s != "" || (bo.Op == token.EQL) != g.Pol {
+				continue
+			}
+			if _, grp, okm := p.patternOfMatch(bo.X); okm {
+				empty[grp] = true
+			}
+		}
+		// hours are group 3 (or the enclosing 2), minutes group 5 (or 4)
+		if (empty[3] || empty[2]) && (empty[5] || empty[4]) {
+			okd = true
+		}
+	}
+	r.check(okd, rule, "both-empty-rejected", p.pos(f.Pos()), "a text without hour and minute part is rejected", "no rejection is guarded by 'hour group empty and minute group empty': a bare sign (\"-\", \"+\") or the empty text is accepted as a zero duration")
+}
+
+// P19-persist — every successful manipulation of the bookmarks is written: in
+// ManipulateBookmarks each return is either a failure that was just detected or the very result
+// of writing the collection's JSON to the database path. (An "empty, nothing to do" shortcut
+// leaves the old database in place.)
+func ruleP19Persist(p *Prog, r *Report) {
+	const rule = "P19-persist"
+	f := p.method("klog/app", "context", "ManipulateBookmarks")
+	wf := p.fn("klog/app", "WriteToFile")
+	if !r.anchorFn(rule, f, "(*context).ManipulateBookmarks") || !r.anchorFn(rule, wf, "app.WriteToFile") {
+		return
+	}
+	writes := callsTo(f, wf)
+	if len(writes) != 1 {
+		r.undecided(rule, "write", p.pos(f.Pos()), "expected one WriteToFile in ManipulateBookmarks, found %d", len(writes))
+		return
+	}
+	w := writes[0]
+	// what is written: ToJson of the collection that was read and manipulated
+	nm, rv, _, _ := methodCall(w.Common().Args[1])
+	okData := nm == "ToJson"
+	if okData {
+		c, idx := callOf(strip(rv))
+		okData = c != nil && idx == 0 && fnBase(staticCalleeOrNil(c)) == "ReadBookmarks"
+	}
+	r.check(okData, rule, "data", p.instrPos(w), "writes ToJson() of the collection that was read and manipulated", "what is written is not ToJson() of the collection read by ReadBookmarks")
+	for i, ret := range returnsOf(f) {
+		key := fmt.Sprintf("return#%d", i)
+		v := ret.Results[0]
+		if p.nilnessAt(ret.Block(), v, 0) == nnNonNil {
+			r.ok(rule, key, p.instrPos(ret), "reports a failure")
+			continue
+		}
+		c, _ := callOf(derefFlow(v))
+		r.check(c != nil && c == w, rule, key, p.instrPos(ret), "success is the result of the write", "ManipulateBookmarks can report success without having written the database")
+	}
+}
+
+func staticCalleeOrNil(c ssa.CallInstruction) *ssa.Function {
+	if c == nil {
+		return nil
+	}
+	return staticCallee(c)
+}
+
+// P19-valid-name — an argument is a bookmark reference exactly when it starts with '@'; the same
+// test for every command (there is no second opinion that sends '@a/b' to the file system).
+func ruleP19ValidName(p *Prog, r *Report) {
+	const rule = "P19-valid-name"
+	f := p.fn("klog/app", "IsValidBookmarkName")
+	if !r.anchorFn(rule, f, "app.IsValidBookmarkName") {
+		return
+	}
+	var dnf []string
+	okAll := true
+	for _, ret := range returnsOf(f) {
+		alts, ok := truthAlts(ret.Results[0], 0)
+		if !ok {
+			okAll = false
+			continue
+		}
+		for _, alt := range alts {
+			var atoms []string
+			for _, g := range append(guardsOf(ret.Block()), alt...) {
+				c, _ := callOf(strip(g.Cond))
+				if c != nil && staticCallee(c) != nil && staticCallee(c).String() == "strings.HasPrefix" && strip(c.Common().Args[0]) == ssa.Value(f.Params[0]) {
+					if s, isS := constString(c.Common().Args[1]); isS {
+						atoms = append(atoms, fmt.Sprintf("%vprefix(%q)", map[bool]string{true: "", false: "!"}[g.Pol], s))
+						continue
+					}
+				}
+				atoms = append(atoms, "?"+g.Cond.String())
+			}
+			sort.Strings(atoms)
+			dnf = append(dnf, strings.Join(atoms, "&&"))
+		}
+	}
+	sort.Strings(dnf)
+	got := strings.Join(dnf, " || ")
+	r.check(okAll && got == `prefix("@")`, rule, "predicate", p.pos(f.Pos()), "bookmark reference iff the argument starts with @", "IsValidBookmarkName is true iff "+got+`; expected: iff the argument starts with "@"`)
+}
+
+// P20-tags — the JSON view lists every tag of the summary: toTagViews hands back the very list
+// that TagSet.ToStrings produced (sorted in place), or an empty list when there is none; it is
+// not passed through anything that could drop or merge elements.
+func ruleP20Tags(p *Prog, r *Report) {
+	const rule = "P20-tags"
+	f := p.fn("klog/parser/json", "toTagViews")
+	if !r.anchorFn(rule, f, "json.toTagViews") {
+		return
+	}
+	n := 0
+	for i, ret := range returnsOf(f) {
+		key := fmt.Sprintf("return#%d", i)
+		v := derefFlow(ret.Results[0])
+		if elems, ok := sliceLitElems(v); ok && len(elems) == 0 {
+			// the empty list: only when ToStrings gave nil
+			r.ok(rule, key, p.instrPos(ret), "empty list")
+			continue
+		}
+		if sl, ok := strip(v).(*ssa.Slice); ok {
+			if _, isAlloc := strip(sl.X).(*ssa.Alloc); isAlloc {
+				r.ok(rule, key, p.instrPos(ret), "empty list")
+				continue
+			}
+		}
+		n++
+		nm, rv, _, _ := methodCall(v)
+		r.check(nm == "ToStrings" && strip(rv) == ssa.Value(f.Params[0]), rule, key, p.instrPos(ret), "returns the list TagSet.ToStrings produced", "the tag list returned is not the list TagSet.ToStrings produced (it passed through "+calleeNameOf(v)+"): tags can be dropped or merged in the JSON output")
+	}
+	if n == 0 {
+		r.undecided(rule, "floor", p.pos(f.Pos()), "no return of the tag list found")
+	}
+}
+
+func calleeNameOf(v ssa.Value) string {
+	if c, _ := callOf(strip(v)); c != nil {
+		return calleeName(c)
+	}
+	return v.String()
+}
+
+// P11-args-pure — asking an argument group for the date, the time or the format it denotes does
+// not change the group: AtDate / AtTime / DateFormat / TimeFormat / WasAutomatic never assign to
+// a field of their receiver. (DateFormat and TimeFormat read `Date != nil` / `Time != nil` as
+// "the user passed an explicit value"; a resolved date remembered in the field turns a generated
+// date into an explicit one and the file's own style is no longer followed.)
+func ruleP11ArgsPure(p *Prog, r *Report) {
+	const rule = "P11-args-pure"
+	type m struct{ typ, name string }
+	n := 0
+	for _, x := range []m{{"AtDateArgs", "AtDate"}, {"AtDateArgs", "DateFormat"}, {"AtDateAndTimeArgs", "AtTime"}, {"AtDateAndTimeArgs", "TimeFormat"}, {"AtDateAndTimeArgs", "WasAutomatic"}} {
+		f := p.method("klog/app/cli/util", x.typ, x.name)
+		if !r.anchorFn(rule, f, x.typ+"."+x.name) {
+			continue
+		}
+		n++
+		recv := f.Params[0]
+		bad := ""
+		for _, g := range withAnons(f) {
+			eachInstr(g, func(in ssa.Instruction) {
+				st, ok := in.(*ssa.Store)
+				if !ok {
+					return
+				}
+				a := st.Addr
+				for {
+					if fa, isFA := a.(*ssa.FieldAddr); isFA {
+						a = fa.X
+						continue
+					}
+					break
+				}
+				base := strip(a)
+				if fv, isFV := base.(*ssa.FreeVar); isFV {
+					if b := freeVarBinding(fv); b != nil {
+						base = strip(b)
+					}
+				}
+				if base == ssa.Value(recv) && a != st.Addr {
+					bad = p.instrPos(st)
+				}
+			})
+		}
+		r.check(bad == "", rule, x.typ+"."+x.name, p.pos(f.Pos()), "reads its receiver only", "assigns to a field of its receiver at "+bad+": a later DateFormat()/TimeFormat() mistakes the remembered value for one the user passed explicitly")
+	}
+	if n < 5 {
+		r.undecided(rule, "floor", "-", "argument accessors missing")
+	}
+}
+
+// P07-head — every batch hands its FIRST block over to the merge step (it may be the
+// continuation of the previous batch's last block, even when the batch begins with a line
+// ending: the boundary can fall between a line's text and its line ending): headText is
+// batchText[:n] with n the byte count txt.ParseBlock reports for the batch text, on every path.
+// P07-input — and the text that is cut into batches is the text that was passed in.
+func ruleP07Head(p *Prog, r *Report) {
+	const rule = "P07-head"
+	parse, async, ok := p.parallelFns(r, rule)
+	if !ok {
+		return
+	}
+	var work *ssa.Function
+	for _, c := range callsTo(parse, async) {
+		work = funcLiteral(c.Common().Args[len(c.Common().Args)-1])
+	}
+	split := p.fn("klog/parser/engine", "splitIntoChunks")
+	pb := p.fn("klog/parser/txt", "ParseBlock")
+	if work == nil || !r.anchorFn(rule, split, "engine.splitIntoChunks") || !r.anchorFn(rule, pb, "txt.ParseBlock") {
+		if work == nil {
+			r.undecided(rule, "work", p.pos(parse.Pos()), "work function literal not found")
+		}
+		return
+	}
+	text := work.Params[1]
+	n := 0
+	eachInstr(work, func(in ssa.Instruction) {
+		st, ok := in.(*ssa.Store)
+		if !ok {
+			return
+		}
+		fa, ok := st.Addr.(*ssa.FieldAddr)
+		if !ok || typeNameOf(fa.X.Type()) != "batchResult" || fieldName(fa) != "headText" {
+			return
+		}
+		if s, isS := constString(st.Val); isS && s == "" && len(guardsOf(st.Block())) == 0 {
+			return
+		}
+		n++
+		good := false
+		if sl, isSl := strip(st.Val).(*ssa.Slice); isSl && strip(sl.X) == ssa.Value(text) && sl.Low == nil && sl.High != nil {
+			if c, idx := callOf(strip(sl.High)); c != nil && idx == 1 && sameFn(staticCallee(c), pb) && strip(c.Common().Args[0]) == ssa.Value(text) {
+				good = true
+			}
+		}
+		r.check(good, rule, "head-boundary", p.instrPos(st), "the head is the first block of the batch text as txt.ParseBlock delimits it, unconditionally", "the head carried to the merge step is not (always) the first block of the batch as txt.ParseBlock delimits it: a block cut by a batch boundary is parsed in two pieces")
+	})
+	if n != 1 {
+		r.undecided(rule, "head-boundary", p.pos(work.Pos()), "expected one assignment of headText, found %d", n)
+	}
+	// input
+	cs := callsTo(parse, split)
+	if len(cs) != 1 {
+		r.undecided(rule, "input", p.pos(parse.Pos()), "expected one splitIntoChunks call, found %d", len(cs))
+		return
+	}
+	r.check(strip(cs[0].Common().Args[0]) == ssa.Value(parse.Params[1]), rule, "input", p.instrPos(cs[0]), "the text cut into batches is the text passed in", "the parallel engine alters the text before cutting it into batches: the blocks no longer reproduce the file byte for byte")
 }
